@@ -12,15 +12,15 @@ import (
 
 func init() {
 	register("C12", &propSpec{
-		level: "other",
+		level:       "other",
 		explanation: "os.File-like semantics of the remote File decided structurally: each exported method takes the File mutex in the mode required by what it can reach (exclusive if a store to offset/handle is reachable, shared otherwise) before touching either field; every load of the handle is dominated by the closed test (in the method or transitively at every call site of the helper); Close clears the handle before sending CLOSE with the value loaded before, and is the only writer of the handle; no store to the offset is reachable from the *At and metadata methods; every store to the offset has one of the shapes 'offset += bytes moved by the callee' / 'offset = position of the error' / the Seek table, the latter guarded by the negative test.",
-		run: runC12,
+		run:         runC12,
 		assumptions: []string{"callers use a File only through its methods"},
 	})
 	register("C13", &propSpec{
-		level: "other",
+		level:       "other",
 		explanation: "Partial-failure accounting decided structurally: the reducers of the three concurrent transfers keep the error with the lowest offset (guard e.off <= first.off from MaxInt64) and return first.err with first.off - off; every worker error is sent unconditionally to the drained error channel; the read worker reports a short DATA as io.EOF at chunk offset + bytes copied; sequential loops return at the first error with the running count that only grows by the callee's count; WriteTo's reducer consumes chunks in request order and stops before advancing on an error, mapping io.EOF to nil only there; a nil error is returned only with the full length.",
-		run: runC13,
+		run:         runC13,
 		assumptions: []string{"regular files return short reads only at end of file (the premise written in client.go)"},
 	})
 }
@@ -1160,7 +1160,6 @@ func checkOffsetStores(c *Ctx, rule string, only map[string]bool) {
 	}
 
 }
-
 
 // offKey finds the File.offset atom (coefficient 1) of a term.
 func offKey(t term) (string, bool) {
